@@ -12,6 +12,7 @@ ARG = ["n", j, [keys...]] (result of call site j, indexed) | ["p", name] | ["c",
 """
 from __future__ import annotations
 
+import dataclasses
 import json
 import zlib
 from collections import Counter
@@ -326,6 +327,17 @@ def _form(name, salt, n):
     return zlib.crc32(("%s|%s" % (name, salt)).encode()) % n
 
 
+@dataclasses.dataclass
+class CallableRecord:
+    """A node function that is a callable DATACLASS instance (a configured step object): tawazi names the node after the
+    instance's `__qualname__`."""
+
+    fn: object
+
+    def __call__(self, *a, **k):
+        return self.fn(*a, **k)
+
+
 def declare_xn(fn, kw, name, salt=""):
     """Every documented way of turning a function into a node: `@xn(**kw)`, the call form `xn(f, **kw)`, both with only
     the non-default options spelled out, and bare `xn(f)` / `@xn` when there is nothing to say."""
@@ -337,8 +349,14 @@ def declare_xn(fn, kw, name, salt=""):
     short = {k: v for k, v in kw.items() if not (k in dflt and v == dflt[k])}
     if len(short) < len(kw):
         DECL_FORMS["options_left_to_process_defaults"] += 1
-    form = _form(name, salt, 5)
+    form = _form(name, salt, 6)
     DECL_FORMS["xn_form_%d" % form] += 1
+    if form == 5:
+        rec = CallableRecord(fn)
+        rec.__qualname__ = getattr(fn, "__qualname__", name)
+        rec.__name__ = getattr(fn, "__name__", name)
+        rec.__module__ = getattr(fn, "__module__", "twzprog")
+        return xn(**kw)(rec)
     if form == 4:
         # a functools.partial as node function (supported: the node is named after the wrapped function)
         import functools
